@@ -43,7 +43,7 @@ func scanParts(k int, cs hx.Sx) (d decoder.Decoder, data []byte, enum func(error
 		it := hx.Items(cs)
 		wc := hx.Truth(it[0])
 		d = getDec(fmt.Sprintf("nginx-%v", wc), func() (decoder.Decoder, error) {
-			return decoder.NewNginxErrorDecoder(decoder.Params{"nginx_with_custom_fields": wc})
+			return newByName("nginx_error", decoder.Params{"nginx_with_custom_fields": wc})
 		})
 		return d, hx.Bytes(it[1]), func(e error) int { return msgEnum(e, nginxErrs) }
 	case 3, 4:
@@ -51,26 +51,14 @@ func scanParts(k int, cs hx.Sx) (d decoder.Decoder, data []byte, enum func(error
 		ff, sf := hx.Truth(it[0]), hx.Truth(it[1])
 		params := decoder.Params{"syslog_facility_format": fmtName(ff), "syslog_severity_format": fmtName(sf)}
 		if k == 3 {
-			d = getDec(fmt.Sprintf("s3164-%v-%v", ff, sf), func() (decoder.Decoder, error) { return decoder.NewSyslogRFC3164Decoder(params) })
+			d = getDec(fmt.Sprintf("s3164-%v-%v", ff, sf), func() (decoder.Decoder, error) { return newByName("syslog_rfc3164", params) })
 		} else {
-			d = getDec(fmt.Sprintf("s5424-%v-%v", ff, sf), func() (decoder.Decoder, error) { return decoder.NewSyslogRFC5424Decoder(params) })
+			d = getDec(fmt.Sprintf("s5424-%v-%v", ff, sf), func() (decoder.Decoder, error) { return newByName("syslog_rfc5424", params) })
 		}
 		return d, hx.Bytes(it[2]), syslogEnum
 	case 5:
 		it := hx.Items(cs)
-		delim, ncols, cont := byte(hx.Int(it[0])), int(hx.Int(it[1])), hx.Truth(it[2])
-		d = getDec(fmt.Sprintf("csv-%d-%d-%v", delim, ncols, cont), func() (decoder.Decoder, error) {
-			cols := make([]any, ncols)
-			for i := range cols {
-				cols[i] = fmt.Sprintf("c%d", i)
-			}
-			p := decoder.Params{"delimiter": string([]byte{delim}), "columns": cols}
-			if cont {
-				p["invalid_line_mode"] = "continue"
-			}
-			return decoder.NewCSVDecoder(p)
-		})
-		return d, hx.Bytes(it[3]), func(e error) int { return msgEnum(e, csvErrs) }
+		return csvDec(it), hx.Bytes(it[3]), func(e error) int { return msgEnum(e, csvErrs) }
 	}
 	panic("c12: no DecodeToJson for this scanner")
 }
@@ -152,10 +140,14 @@ func toJSONOne(k int, root *insaneJSON.Root, item hx.Sx) hx.Sx {
 	return framed(data, func(line []byte) hx.Sx {
 		_ = root.DecodeString("{}")
 		var err error
-		if k == 1 {
-			err = decoder.DecodePostgresToJson(root, line)
-		} else {
-			err = d.DecodeToJson(root, line)
+		if caughtFatal(func() {
+			if k == 1 {
+				err = decoder.DecodePostgresToJson(root, line)
+			} else {
+				err = d.DecodeToJson(root, line)
+			}
+		}) {
+			return errObs(5) // csv invalid_line_mode=fatal
 		}
 		if err != nil {
 			return errObs(enum(err))
@@ -248,7 +240,7 @@ func withMeta(doc []byte) []byte {
 }
 
 func execJSONRoundTrip(cs hx.Sx) hx.Sx {
-	d := getDec("json-plain", func() (decoder.Decoder, error) { return decoder.NewJsonDecoder(decoder.Params{}) })
+	d := getDec("json-plain", func() (decoder.Decoder, error) { return newByName("json", decoder.Params{}) })
 	root := bornRoot()
 	defer insaneJSON.Release(root)
 	var out []hx.Sx
@@ -342,6 +334,9 @@ func genToJSON(c *hmain.Ctx) {
 		c.W.Count("tojson_csv_columns_" + bucket(n))
 		c.Do("tojson-csv-wide", 35, items(csvItem(0, false, csvLine(n, "v"))), true)
 		c.Do("tojson-csv-wide", 35, items(csvItem(n, false, csvLine(n, "w")+"\r\n")), true)
+		// half of the names configured, the other half generated from the `prefix` option ("c": the generated name c<i>
+		// of a late column equals the configured name of an early one only if i < ncols, which cannot be)
+		c.Do("tojson-csv-wide", 35, items(hx.L(hx.I(','), hx.I(n/2), hx.I(0), hx.S(csvLine(n, "p")), hx.S([]string{"csv_", "c", ""}[n%3]))), true)
 		if n >= 14 && n <= 40 {
 			c.Do("tojson-csv-wide", 35, items(csvItem(0, false, csvLine(n, "a")), csvItem(0, false, csvLine(3, "b")), csvItem(0, false, csvLine(n+1, "c")),
 				csvItem(0, false, csvLine(16, "d")), csvItem(0, false, csvLine(17, "e"))), true)
@@ -429,7 +424,10 @@ func genToJSON(c *hmain.Ctx) {
 		case 3, 4:
 			return hx.L(hx.Bool(r.Bool()), hx.Bool(r.Bool()), hx.B(d))
 		case 5:
-			return hx.L(hx.I(','), hx.I([]int{0, 0, 3, 4}[r.Intn(4)]), hx.Bool(r.Bool()), hx.B(d))
+			if r.Bool() { // the `prefix` option names the columns beyond the configured ones
+				return hx.L(hx.I(','), hx.I([]int{0, 0, 3, 4}[r.Intn(4)]), hx.I(r.Intn(4)), hx.B(d), hx.S(hx.Pick(r, []string{"", "csv_", "c", "0"})))
+			}
+			return hx.L(hx.I(','), hx.I([]int{0, 0, 3, 4}[r.Intn(4)]), hx.I(r.Intn(4)), hx.B(d))
 		}
 		return hx.B(d)
 	}
